@@ -444,9 +444,23 @@ func (h *Handler) isAllowed(ip net.IP) bool {
 }
 
 // AddAllowedRoute adds a CIDR route to the allowed routes list.
+// Adding a network that is already allowed is a no-op, so that a later
+// RemoveAllowedRoute of that network really revokes it (a dynamic route that
+// is re-added to update its metric must not leave a second copy behind).
 func (h *Handler) AddAllowedRoute(network *net.IPNet) {
+	if network == nil {
+		return
+	}
+
 	h.routesMu.Lock()
 	defer h.routesMu.Unlock()
+
+	target := network.String()
+	for _, route := range h.cfg.AllowedRoutes {
+		if route.String() == target {
+			return
+		}
+	}
 	h.cfg.AllowedRoutes = append(h.cfg.AllowedRoutes, network)
 }
 
